@@ -55,7 +55,10 @@ func (f *MergePathnames) Call(s *slip.Scope, args slip.List, depth int) slip.Obj
 	if !ok {
 		slip.TypePanic(s, depth, "pathname", args[0], "string")
 	}
-	dir := s.Get(slip.Symbol("*default-pathname-defaults*")).(slip.String)
+	dir, ok := s.Get(slip.Symbol("*default-pathname-defaults*")).(slip.String)
+	if !ok {
+		slip.TypePanic(s, depth, "*default-pathname-defaults*", s.Get(slip.Symbol("*default-pathname-defaults*")), "string")
+	}
 	if 1 < len(args) {
 		if sa, ok := args[1].(slip.String); ok {
 			dir = sa
